@@ -155,6 +155,28 @@ def limitOf (port : Nat) (inbound : Option Chains) : Option Nat :=
         | none => 0
     if t = 0 then none else some t
 
+/-- which network filters `getLimiterPolicy` reads (fact from the source) -/
+inductive LimiterScope
+  | all        -- every filter that carries an inline route config (a Thrift-proxy filter always does, with a zero bucket)
+  | httpOnly   -- HTTP connection managers only
+  | other
+  deriving DecidableEq, Repr, Inhabited
+
+inductive FKind | http | thrift
+  deriving DecidableEq, Repr, Inhabited
+
+/-- a network filter of the decoded inbound listener: kind, `RoutePort` (a Thrift-proxy filter has none: 0), and the
+tokens-per-fill of its inline route config if it has one -/
+structure NFilter where
+  kind : FKind
+  port : Nat
+  tokens : Option Nat
+  deriving DecidableEq, Repr, Inhabited
+
+/-- the listener as the limiter sees it -/
+def chainsOf (scope : LimiterScope) (fs : List NFilter) : Chains :=
+  (fs.filter (fun f => match scope with | .httpOnly => f.kind = .http | _ => true)).map (fun f => (f.port, f.tokens))
+
 structure LimitSt where
   qps : Option (Option Nat)       -- `none`: never configured (zero limit.Option); `some none`: unlimited
   hasUpdater : Bool
